@@ -1,12 +1,14 @@
 // Triage-only harness (NOT part of any registered check): compares the atomic gradients a variable reports
 // (colvar::atomic_gradients, what `cv colvar <name> getgradients` returns) with central differences of its value.
-// usage: gradfd [-h step] [-t tol] -x frame.xyz config
+// usage: gradfd [-h step] [-t tol] [-p random_displacement] -x frame.xyz config
 #include <iostream>
 #include <fstream>
 #include <string>
 #include <vector>
 #include <cmath>
 #include <algorithm>
+#include <cstdlib>
+#include <iomanip>
 #include "colvarmodule.h"
 #include "colvar.h"
 #include "colvarproxy.h"
@@ -17,19 +19,20 @@ struct gproxy : public colvarproxy_stub {
     for (size_t i = 0; i < pos.size(); i++) atoms_positions[i] = pos[i];
     colvars->calc();
   }
+  std::vector<cvm::rvector> atoms_new_colvar_forces_copy() { return atoms_new_colvar_forces; }
   void masses() { for (size_t i = 0; i < atoms_masses.size(); i++) atoms_masses[i] = 1.0 + 2.5 * double(i % 5); }
 };
 
 int main(int argc, char **argv) {
-  double h = 1e-5, tol = 1e-4; std::string traj, conf;
+  double h = 1e-5, tol = 1e-4, pert = 0.0; std::string traj, conf;
   for (int i = 1; i < argc; i++) {
     std::string a = argv[i];
     if (a == "-h") h = atof(argv[++i]); else if (a == "-t") tol = atof(argv[++i]);
-    else if (a == "-x") traj = argv[++i]; else conf = a;
+    else if (a == "-x") traj = argv[++i]; else if (a == "-p") pert = atof(argv[++i]); else conf = a;
   }
   gproxy *proxy = new gproxy();
   proxy->set_unit_system("real", false);
-  proxy->set_output_prefix(conf + ".out");
+  { std::string b = conf; size_t sl = b.rfind('/'); if (sl != std::string::npos) b = b.substr(sl + 1); proxy->set_output_prefix("gradfd_" + b); }
   proxy->colvars->setup_input(); proxy->colvars->setup_output();
   std::ifstream ifs(traj); int natoms; ifs >> natoms; ifs.close();
   for (int ai = 0; ai < natoms; ai++) proxy->init_atom(ai + 1);
@@ -37,12 +40,23 @@ int main(int argc, char **argv) {
   if (proxy->colvars->read_config_file(conf.c_str()) != COLVARS_OK || cvm::get_error()) { std::cout << "CONFIG-ERROR\n"; return 3; }
   proxy->colvars->load_coords_xyz(traj.c_str(), proxy->modify_atom_positions(), nullptr, true);
   std::vector<cvm::rvector> pos = *proxy->modify_atom_positions();
+  if (pert > 0.0) {  // deterministic displacement away from the stored frame (reference structures)
+    unsigned long long z = 88172645463325252ULL;
+    for (size_t i = 0; i < pos.size(); i++) for (int d = 0; d < 3; d++) {
+      z ^= z << 13; z ^= z >> 7; z ^= z << 17;
+      pos[i][d] += pert * (double(z % 2000001ULL) / 1000000.0 - 1.0);
+    }
+  }
   int nbad = 0;
+  std::cout << std::setprecision(12);
   for (colvar *cv : *(proxy->colvars->variables())) {
     cv->enable(colvardeps::f_cv_collect_gradient);
     proxy->eval(pos);
     std::vector<int> ids = cv->atom_ids;
     std::vector<cvm::rvector> g = cv->atomic_gradients;
+    // what the engine received at the same step, divided by the force applied to the variable (single-variable configs)
+    std::vector<cvm::rvector> applied = proxy->atoms_new_colvar_forces_copy();
+    double fcv = cv->applied_force().real_value;
     double worst = 0.0;
     for (size_t k = 0; k < ids.size(); k++) {
       int ai = ids[k];   // proxy index == atom number - 1 == id
@@ -50,9 +64,10 @@ int main(int argc, char **argv) {
         std::vector<cvm::rvector> p = pos; p[ai][d] += h; proxy->eval(p); double vp = cv->value().real_value;
         p[ai][d] -= 2 * h; proxy->eval(p); double vm = cv->value().real_value;
         double fd = (vp - vm) / (2 * h);
+        if (getenv("GRADFD_DEBUG") && k == 0) std::cout << "    dbg atom " << ai + 1 << " d" << d << " vp=" << vp << " vm=" << vm << " pos=" << pos[ai][d] << "\n";
         double err = std::fabs(fd - g[k][d]);
         if (err > worst) worst = err;
-        if (err > tol) { if (nbad < 6) std::cout << "  " << cv->name << " atom " << ai + 1 << " dim " << d << ": reported " << g[k][d] << " finite difference " << fd << "\n"; nbad++; }
+        if (err > tol) { if (nbad < 6) std::cout << "  " << cv->name << " atom " << ai + 1 << " dim " << d << ": reported " << g[k][d] << " finite difference " << fd << " applied/f " << (fcv != 0.0 ? applied[ai][d] / fcv : 0.0) << "\n"; nbad++; }
       }
     }
     std::cout << cv->name << ": " << ids.size() << " atoms, worst |reported - FD| = " << worst << std::endl;
